@@ -3,6 +3,7 @@ package main
 // Verification of one function instance against its own contract.
 
 import (
+	"math/big"
 	"fmt"
 	"go/types"
 	"sort"
@@ -154,6 +155,7 @@ func (x *Exec) verify() {
 		}
 	}
 	var antecedents map[int][]*Term
+	variesVals := map[int][][2]*Term{} // clause index -> (guard, value) per return
 	for _, r := range x.returns {
 		penv := x.specEnv(x.entry, r.St)
 		for i := 0; i < res.Len(); i++ {
@@ -223,6 +225,14 @@ func (x *Exec) verify() {
 				}
 			}
 		}
+		for i, c := range fc.Varies {
+			v := penv.eval(c.E)
+			t, ok := v.V.(*Term)
+			if !ok || !o.M.BV {
+				x.fail("varies clause %q: needs an integer expression in `mode bv`", c.Text)
+			}
+			variesVals[i] = append(variesVals[i], [2]*Term{r.St.Guard, t})
+		}
 		if fc.PanicsIff != nil {
 			x.oblige("panic", "returns", fc.PanicsIff.Tags, "returns normally only if not ("+fc.PanicsIff.Text+")", r.St.Guard,
 				o.Not(x.evalClause(x.specEnv(x.entry, x.entry), fc.PanicsIff)))
@@ -232,6 +242,36 @@ func (x *Exec) verify() {
 			if strings.HasPrefix(k, "held:") {
 				x.oblige("lock", strings.TrimPrefix(k, "held:"), []string{"C19.lock"}, "lock state at exit equals lock state at entry", r.St.Guard,
 					o.Eq(v.(*Term), x.entry.Ghost[k].(*Term)))
+			}
+		}
+	}
+	for i, c := range fc.Varies {
+		// every bit under the mask takes both values at some return (reachability queries: expected satisfiable)
+		vals := variesVals[i]
+		if len(vals) == 0 {
+			continue
+		}
+		w := vals[0][1].Sort.W
+		mask := new(big.Int).Sub(new(big.Int).Lsh(big.NewInt(1), uint(w)), big.NewInt(1))
+		if c.Mask != "" {
+			m, ok := new(big.Int).SetString(strings.TrimPrefix(strings.ToLower(c.Mask), "0x"), 16)
+			if !ok || !strings.HasPrefix(strings.ToLower(c.Mask), "0x") {
+				x.fail("varies clause %q: mask must be a hexadecimal constant", c.Text)
+			}
+			mask = m
+		}
+		for k := 0; k < w; k++ {
+			if mask.Bit(k) == 0 {
+				continue
+			}
+			for bit := int64(0); bit <= 1; bit++ {
+				var alts []*Term
+				for _, gv := range vals {
+					alts = append(alts, o.And(gv[0], o.Eq(o.Extract(k, k, gv[1]), o.BVi(bit, 1))))
+				}
+				ob := x.oblige("varies", fmt.Sprintf("%d.bit%d=%d", i, k, bit), c.Tags, fmt.Sprintf("bit %d of %s takes the value %d for some outcome of the calls it depends on", k, c.Text, bit), o.True(), o.Not(o.Or(alts...)))
+				ob.Cover = true
+				ob.CoverTags = c.Tags
 			}
 		}
 	}
